@@ -15,7 +15,7 @@ from ..core import AnalysisError, FuncNode, assigned_targets, call_name, calls_i
 
 EXPLANATION = (
     "C17.1 transitive read-set of Task._calc_hash (through the fullname property) contains name, namespace, source, version, "
-    "_hash_includes, _task_options_override, compat and excludes _task_options_base/_export_options; hash_includes are consumed through "
+    "_hash_includes, _task_options_override, compat and excludes _task_options_base; hash_includes are consumed through "
     "sorted(); every returned pre-image carries fullname; C17.2 every clone constructor call inside Task (options, export_options) forwards "
     "each hashed constructor field from self; C17.3 any assignment to a hashed field of a task object outside __init__/__setstate__ is "
     "followed on all paths by recompute_hash() on that object before the function returns or re-registers it; C17.4 wraps_task puts the "
@@ -26,7 +26,9 @@ EXPLANATION = (
 TASK = "redun/task.py"
 UTILS = "redun/utils.py"
 HASHED = ["name", "namespace", "source", "version", "_hash_includes", "_task_options_override", "compat"]
-NOT_HASHED = ["_task_options_base", "_export_options"]
+# `_export_options` (which overrides are exported to child jobs) was in this table until the third review of the unchanged tree: the property
+# excludes definition-time options only, and C18 requires exported options to be part of a call's identity (see C18.9, DESIGN section 22).
+NOT_HASHED = ["_task_options_base"]
 CTOR_FIELD = {"name": "name", "namespace": "namespace", "version": "version", "compat": "compat", "source": "source", "hash_includes": "_hash_includes"}
 
 
@@ -58,7 +60,7 @@ def run(ctx):
     for f in HASHED:
         r1.check(f in reads, f"{m.rel}:Task._calc_hash:reads {f}", f"Task._calc_hash no longer depends on `{f}`: changing it does not change the task hash", m.rel, ch.lineno)
     for f in NOT_HASHED:
-        r1.check(f not in reads, f"{m.rel}:Task._calc_hash:ignores {f}", f"Task._calc_hash reads `{f}`: definition-time/exported options must not affect the hash", m.rel, ch.lineno)
+        r1.check(f not in reads, f"{m.rel}:Task._calc_hash:ignores {f}", f"Task._calc_hash reads `{f}`: definition-time options must not affect the hash", m.rel, ch.lineno)
     # the hashed fields reach the pre-image whole: no keys-only iteration of the override mapping, no table lookups / slices on the way
     from ..flow import lossy_uses
 
